@@ -807,6 +807,10 @@ func (x *Exec) evalCall(env *SpecEnv, e ECall) Val {
 			}
 		case *types.Array:
 			return Val{T: x.S.IdxLit(u.Len()), Typ: it}
+		case *types.Map:
+			if e.Fun == "len" {
+				return Val{T: x.intToIdx(x.mapLen(env.cur, v.T, u)), Typ: it}
+			}
 		}
 		panic(specErr("len of %s", v.Typ))
 	case "int64", "uint64", "int", "uint32", "int32", "uint8", "byte", "uint", "float64":
